@@ -322,6 +322,9 @@ func (s *Segment) DeleteDataBefore(retentionThreshold time.Time, cb func(depth i
 
 // TODO: this should be refactored
 func (s *Segment) SetMetadata(spyName string, sampleRate uint32, units, aggregationType string) {
+	s.m.Lock()
+	defer s.m.Unlock()
+
 	s.spyName = spyName
 	s.sampleRate = sampleRate
 	s.units = units
@@ -329,18 +332,30 @@ func (s *Segment) SetMetadata(spyName string, sampleRate uint32, units, aggregat
 }
 
 func (s *Segment) SpyName() string {
+	s.m.RLock()
+	defer s.m.RUnlock()
+
 	return s.spyName
 }
 
 func (s *Segment) SampleRate() uint32 {
+	s.m.RLock()
+	defer s.m.RUnlock()
+
 	return s.sampleRate
 }
 
 func (s *Segment) Units() string {
+	s.m.RLock()
+	defer s.m.RUnlock()
+
 	return s.units
 }
 
 func (s *Segment) AggregationType() string {
+	s.m.RLock()
+	defer s.m.RUnlock()
+
 	return s.aggregationType
 }
 
